@@ -286,10 +286,11 @@ Price/fees can be:
             .filter(|d| d.ticker.eq_ignore_ascii_case(ticker))
             .collect();
 
+        // Sorted and de-duplicated, so that the message does not depend on hash order
         let all_tickers: Vec<_> = all_disposals
             .iter()
             .map(|d| d.ticker.as_str())
-            .collect::<std::collections::HashSet<_>>()
+            .collect::<std::collections::BTreeSet<_>>()
             .into_iter()
             .collect();
 
